@@ -127,6 +127,8 @@ structure Row where
   fmt : String
   toks : List String
   const : Bool
+  /-- the translator's numbering of the strings above (same string = same number; `Gen.strings`): section, name, guard tokens -/
+  ids : Nat × Nat × List Nat
   deriving Repr, DecidableEq
 
 /-- one line of the specification: attribute `key` of element class `cls` is carried by the writer of section `wsec`
@@ -140,13 +142,27 @@ structure Field where
   rsec : String
   r : String
   rtoks : List String
+  wids : Nat × Nat × List Nat
+  rids : Nat × Nat × List Nat
   deriving Repr, DecidableEq
 
-def Row.has (row : Row) (sec : String) (write : Bool) (name : String) (toks : List String) : Bool :=
-  row.sec == sec && row.write == write && row.name == name && toks.all fun t => row.toks.contains t
+/-- same section, same direction, same name, and every guard token asked for is among the row's (compared through the
+translator's string numbering: kernel evaluation of `String` equality is three orders of magnitude slower) -/
+def Row.has (row : Row) (write : Bool) (ids : Nat × Nat × List Nat) : Bool :=
+  row.write == write && row.ids.2.1 == ids.2.1 && row.ids.1 == ids.1 && ids.2.2.all fun t => row.ids.2.2.contains t
 
-def Field.wRows (f : Field) (rows : List Row) : List Row := rows.filter fun x => x.has f.wsec true f.w f.wtoks
-def Field.rRows (f : Field) (rows : List Row) : List Row := rows.filter fun x => x.has f.rsec false f.r f.rtoks
+/-- the rows come grouped by section (number of the section name, rows of that section) -/
+abbrev Table := List (Nat × List Row)
+
+def Table.sec (t : Table) (id : Nat) : List Row :=
+  match t.find? fun p => p.1 == id with
+  | some p => p.2
+  | none => []
+
+def Table.all (t : Table) : List Row := t.flatMap (·.2)
+
+def Field.wRows (f : Field) (t : Table) : List Row := (t.sec f.wids.1).filter fun x => x.has true f.wids
+def Field.rRows (f : Field) (t : Table) : List Row := (t.sec f.rids.1).filter fun x => x.has false f.rids
 
 /-- two conversion calls undo each other as far as their SHAPE goes: opposite directions, same parameter family and
 the same optional arguments; whether the two parameters convert alike is decided on the units table -/
@@ -160,12 +176,12 @@ def rowsCompat (a b : Row) : Bool :=
   | _, _ => false
 
 /-- the field is present on both sides and every (written, read) pair of non-literal rows agrees on the conversion shape -/
-def Field.ok (f : Field) (rows : List Row) : Bool :=
+def Field.ok (f : Field) (rows : Table) : Bool :=
   !(f.wRows rows).isEmpty && !(f.rRows rows).isEmpty &&
   ((f.wRows rows).filter (!·.const)).all fun a => ((f.rRows rows).filter (!·.const)).all fun b => rowsCompat a b
 
 /-- the (write-side, read-side) conversion pairs a specification uses -/
-def convPairs (fs : List Field) (rows : List Row) : List (Conv × Conv) :=
+def convPairs (fs : List Field) (rows : Table) : List (Conv × Conv) :=
   (fs.flatMap fun f => (f.wRows rows).flatMap fun a => (f.rRows rows).filterMap fun b =>
     match a.conv, b.conv with
     | some x, some y => some (x, y)
@@ -174,7 +190,7 @@ def convPairs (fs : List Field) (rows : List Row) : List (Conv × Conv) :=
 /-- rows with a conversion that no field of the specification accounts for -/
 def unclaimed (fs : List Field) (rows : List Row) : List Row :=
   rows.filter fun x => x.conv.isSome &&
-    !(fs.any fun f => if x.write then x.has f.wsec true f.w f.wtoks else x.has f.rsec false f.r f.rtoks)
+    !(fs.any fun f => if x.write then x.has true f.wids else x.has false f.rids)
 
 end Wntr.InpSchema
 
